@@ -27,6 +27,7 @@ func (r SatResult) String() string { return [...]string{"unsat", "sat", "unknown
 type SolverStats struct {
 	Queries, SatN, UnsatN, UnknownN, Errors int64
 	CrossChecked, Disagreements             int64
+	LIA                                     int64 // queries decided in the exact linear-integer encoding
 	SolverNS                                int64
 }
 
@@ -40,6 +41,7 @@ type Solver struct {
 	Stats   *SolverStats
 	dead    bool
 	Log     io.Writer // optional transcript
+	liaSafe map[string]bool
 }
 
 func solverArgv(kind string) []string {
@@ -50,6 +52,8 @@ func solverArgv(kind string) []string {
 		return []string{"z3-new", "-in", "-smt2"}
 	case "cvc5":
 		return []string{"cvc5", "--produce-models", "--lang=smt2"}
+	case "z3-lia":
+		return []string{"z3-new", "-in", "-smt2"}
 	case "cvc5-int":
 		return []string{"cvc5", "--produce-models", "--lang=smt2", "--solve-bv-as-int=sum"}
 	}
@@ -159,6 +163,15 @@ func (s *Solver) readReplyTimeout(d time.Duration) (string, error) {
 // Check decides the conjunction of asserts. If want is non-empty and the
 // answer is sat, the values of those terms are returned (keyed by term ID).
 func (s *Solver) Check(asserts []*Term, want []*Term) (SatResult, map[int]uint64) {
+	if s.Kind == "z3-lia" {
+		if s.liaSafe == nil {
+			s.liaSafe = map[string]bool{}
+		}
+		if r, m, ok := s.CheckLIA(asserts, want, s.liaSafe); ok {
+			atomic.AddInt64(&s.Stats.LIA, 1)
+			return r, m
+		}
+	}
 	p := NewSMTPrinter()
 	for _, a := range asserts {
 		p.Assert(a)
@@ -281,9 +294,13 @@ func parseValues(s string) []uint64 {
 		// value
 		var v uint64
 		if toks[i] == "(" {
-			// (_ bvN w)
+			// (_ bvN w) or (- N)
 			if i+2 < len(toks) && toks[i+1] == "_" && strings.HasPrefix(toks[i+2], "bv") {
 				v, _ = strconv.ParseUint(toks[i+2][2:], 10, 64)
+			} else if i+2 < len(toks) && toks[i+1] == "-" {
+				if n, err := strconv.ParseUint(toks[i+2], 10, 64); err == nil {
+					v = uint64(-int64(n))
+				}
 			}
 			d := 0
 			for {
@@ -308,6 +325,10 @@ func parseValues(s string) []uint64 {
 				v, _ = strconv.ParseUint(t[2:], 16, 64)
 			case strings.HasPrefix(t, "#b"):
 				v, _ = strconv.ParseUint(t[2:], 2, 64)
+			default:
+				if n, err := strconv.ParseInt(t, 10, 64); err == nil {
+					v = uint64(n)
+				}
 			}
 			i++
 		}
